@@ -29,6 +29,7 @@ func runC04(c *core.Ctx) {
 	c.Rule("R4", "RemoveTombstones call sites: zero-limit on the clone in get; retention-bounded (now - LeftIngestersTimeout, under LeftIngestersTimeout > 0) in mergeValueForKey; nowhere else", 3)
 	c.Rule("R5", "RemoveTombstones implementations delete ⇔ tombstone ∧ (limit.IsZero() ∨ timestamp.Before(limit))", 3)
 	c.Rule("R7", "Clone copies every entry, tombstones included (gossiped changes and push/pull are clones of stored values)", 2)
+	c.Rule("R8", "a watcher is told about every later change — a removal included: its wake-up is consumed only by the select that reads the value next (shared with C06.R11)", 2)
 	c.Rule("R6", "push/pull (LocalState) encodes the stored value with its tombstones, freshly on every call", 2)
 
 	fns := mergeFns(c, "R1")
@@ -44,6 +45,9 @@ func runC04(c *core.Ctx) {
 		analyseRemoveTombstones(c, sp)
 	}
 	c04Readers(c)
+	if ml := c.Prog.Pkg("kv/memberlist"); ml != nil {
+		c.As("R11", "R8", func() { c06Wakeups(c, ml) })
+	}
 }
 
 // R1
